@@ -54,6 +54,12 @@ LP(d, a, v) == -(Pow32(d) * (1 + v + 3 * a) * 256)
 LN2x256k == 177445                                  \* ln 2 * 256 * 1000
 LPcat(l2) == -(((-l2) * LN2x256k) \div 1000)          \* log2-probability l2 <= 0  ->  l2 * ln2 * 256
 
+\* full argument list of the function a closure wraps (n = 0: gen_fn(*stored); 1: partial_apply(*stored);
+\* 2: stored as trailing keyword arguments; 3: partial_apply(stored[1]) and the other stored values as trailing keywords)
+CloArgs(p, args, st) == CASE p.n = 2 -> args \o st
+                          [] p.n = 3 -> <<st[1]>> \o args \o Tail(st)
+                          [] OTHER -> st \o args
+
 R3(lps, ret, err) == [lps |-> lps, ret |-> ret, err |-> err]
 Err2(e1, e2) == IF e1 # "none" THEN e1 ELSE e2
 
@@ -71,7 +77,7 @@ Exec(p, args, chm, dflt) ==
          THEN R3(<<>> :> LPcat(args[1].k[chm[<<>>] + 1].i), I(chm[<<>>]), "none")
          ELSE R3(EmptyF, I(0), IF dflt THEN "none" ELSE "missing")
     [] p.k = "static" -> ExecSites(p, args, chm, dflt, 1, <<>>, R3(EmptyF, Nn, "none"))
-    [] p.k = "closure" -> Exec(p.subs[1], IF p.n = 2 THEN args \o p.x ELSE p.x \o args, chm, dflt)   \* n = 2: stored as trailing keyword arguments
+    [] p.k = "closure" -> Exec(p.subs[1], CloArgs(p, args, p.x), chm, dflt)
     [] p.k \in {"vmap", "repeat"} ->
          LET n  == p.n
              el(i) == IF p.k = "repeat" THEN args
